@@ -35,7 +35,10 @@ for i, b in enumerate(buckets):
     os.makedirs(w)
     subprocess.run(["cp", "-a", "/repo", w + "/repo"], check=True)
     subprocess.run(["git", "-C", w + "/repo", "checkout", "-q", "--", "."], check=True)
-    subprocess.run(["cp", "-a", VERIF, w + "/verif"], check=True)
+    # (a check running on the real tree at this moment may create and delete scratch files under lean/.lake)
+    subprocess.run(["cp", "-a", VERIF, w + "/verif"], stderr=subprocess.DEVNULL)
+    if not os.path.exists(w + "/verif/check"):
+        raise SystemExit("could not copy %s" % VERIF)
     script = ("mount --bind %s/repo /repo && mount --bind %s/verif /verif && ip link set lo up && cd /verif && "
               "python3 tools/%s --rows /verif/rows.json %s" % (w, w, "run_harmless.py" if harmless else "run_seeds.py", " ".join(b)))
     log = open(w + "/log", "w")
